@@ -66,7 +66,12 @@ def world_job(job):
         try:
             if decoy_spec is not None:
                 decoy = decoy_spec
-            elif R.stream(seed, "reuse-kind").random() < 0.5 and (spec.get("service_config") or spec.get("service_yaml")):
+            elif R.stream(seed, "reuse-kind").random() < 0.15:
+                # an earlier build of (nearly) the same API FAILED in this interpreter
+                from . import grammar
+                decoy = grammar.broken_twin(spec)
+                res["decoy_failed"] = 1
+            elif R.stream(seed, "reuse-kind").random() < 0.55 and (spec.get("service_config") or spec.get("service_yaml")):
                 # the same API rebuilt after an edit of its option files (persistent build worker)
                 from . import grammar
                 decoy = grammar.twin_spec(R.stream(seed, "decoy-twin"), spec)
@@ -404,6 +409,7 @@ def aggregate(results):
         agg["faulty"] += pay["faulty"]
         agg["world_wall"] += pay.get("wall_s", 0.0)
         agg["faults"]["generator_process_reuse"] = agg["faults"].get("generator_process_reuse", 0) + pay.get("decoy_generated", 0)
+        agg["faults"]["generator_reuse_after_failed_generation"] = agg["faults"].get("generator_reuse_after_failed_generation", 0) + pay.get("decoy_failed", 0)
         agg["faults"]["generator_reuse_same_api_edited_options"] = agg["faults"].get("generator_reuse_same_api_edited_options", 0) + pay.get("decoy_twin", 0)
         for k in ("keys", "nontrivial_keys", "interleavings"):
             agg[k] |= pay[k]
